@@ -4,16 +4,20 @@ import common, fns, sweeps, crops, labelled
 from common import quiet, canon
 
 PROP = 'C12'
-LEAN_MODULES = ['XyzProofs.Props.C12', 'XyzProofs.Refine.Reap', 'XyzProofs.Props.C12Skel', 'XyzProofs.Refine.Lifecycle']
+LEAN_MODULES = ['XyzProofs.Props.C12', 'XyzProofs.Refine.Reap', 'XyzProofs.Props.C12Skel', 'XyzProofs.Refine.Lifecycle', 'XyzProofs.Props.C12Reap']
 THEOREMS = ['Crop.c12_err_leaves_crop', 'Crop.c12_deleted_iff', 'Crop.c12_retry_exact', 'Crop.c12_options',
             'Crop.reapLinear_congr', 'Crop.reapLinear_dir',
             'Refine.calcCleanUp_refines', 'Refine.checkReady_refines',
             'Skel.splitDel_spec', 'Skel.splitDel_none', 'Skel.reapCombos_deleteLast', 'Skel.reapCombos_deletes_iff', 'Skel.reapCombos_errorKeeps', 'Skel.reapCombos_before', 'Skel.reapRunner_deleteLast_partial', 'Skel.reapRunner_deletes_iff', 'Skel.reapRunner_before', 'Skel.reapHarvest_deleteLast', 'Skel.reapHarvest_deletes_iff', 'Skel.reapHarvest_sync_before_delete', 'Skel.reapHarvest_errorKeeps', 'Skel.reapSamples_deleteLast', 'Skel.reapSamples_deletes_iff', 'Skel.reapSamples_sync_before_delete', 'Skel.reapSamples_errorKeeps',
-            'Lc.reapCombos_refines', 'Lc.reapCombosToDs_refines', 'Lc.reapRunner_refines', 'Lc.deleteAll_refines']
+            'Lc.reapCombos_refines', 'Lc.reapCombosToDs_refines', 'Lc.reapRunner_refines', 'Lc.deleteAll_refines',
+            # the dispatch of the public entry point Crop.reap, translated on every run (anchors_checkbad.py)
+            'Skel.reapDispatch_faithful', 'Skel.reapDefaults_spec', 'Skel.deleteAll_removes_location', 'Skel.reapSk_eq',
+            'Skel.c12_reap_deletes_iff', 'Skel.c12_reap_deleteLast', 'Skel.c12_reap_errorKeeps', 'Skel.c12_reap_sync_before_delete']
 ANCHORS = ['cleanUpDefault', 'harvestDefersCleanup', 'samplesDefersCleanup', 'isReady',
            'calcCleanUp', 'checkReady',
            'reapCombosSk', 'reapCombosToDsSk', 'reapRunnerSk', 'reapHarvestSk', 'reapSamplesSk',
-           'reapCombosLc', 'reapCombosToDsLc', 'reapRunnerLc', 'deleteAllLc']
+           'reapCombosLc', 'reapCombosToDsLc', 'reapRunnerLc', 'deleteAllLc',
+           'reapDispatch', 'reapDefaults', 'deleteAllRemoves']
 RULE = ("the full table clean_up in {None, True, False} x allow_incomplete x wait x farmer kind {raw, Runner, Harvester, "
         "Sampler} x failure stage {none, incomplete crop, unreadable result, wrong output description, harvester merge "
         "conflict, save error} (stages that do not apply to a kind are skipped; wait is only combined with fully grown "
